@@ -187,14 +187,15 @@ class Exc:
 # ----------------------------------------------------------------------------------------------- heap objects
 class Obj:
     """instance: concrete class name, or a symbolic class (`kind` = z3 Int over `cands`)"""
-    __slots__ = ("cls", "kind", "cands", "fields", "tag")
+    __slots__ = ("cls", "kind", "cands", "fields", "tag", "ident")
 
     def __init__(self, cls: Optional[str], fields: Dict[str, Any], kind=None, cands: Optional[List[str]] = None,
-                 tag: Optional[str] = None) -> None:
+                 tag: Optional[str] = None, ident=None) -> None:
         self.cls, self.fields, self.kind, self.cands, self.tag = cls, fields, kind, cands, tag
+        self.ident = ident  # symbolic identity (a z3 Sc term) of elements of symbolic sequences
 
     def copy(self) -> "Obj":
-        return Obj(self.cls, dict(self.fields), self.kind, self.cands, self.tag)
+        return Obj(self.cls, dict(self.fields), self.kind, self.cands, self.tag, self.ident)
 
 
 class ListObj:
